@@ -65,6 +65,32 @@ CLAIMED = {
         "Trusted: TLC, the transcription (cross-checked by the whole-grid invariants and by every validated event), frozen "
         "tables, driver, ndjson.",
         "DESIGN.md 3.5, 5/C05"),
+    "C10": (
+        "TLC: edge-validity product automaton (all 2^64 words) + TLC trace validation of edge API events against the neighbour graph",
+        "isValidDirectedEdge is modelled in the validity automaton (H3Validity.tla, kind=edge) and TLC shows it equals "
+        "'mode 2, direction 1..6, not 1 on a pentagon, valid origin' for every 64-bit word. For every cell of the model "
+        "graph r<=1 (thorough r<=2) and for pentagon-disk / icosahedron-edge / random cells at r=3..15 TLC validates: "
+        "originToDirectedEdges lists exactly one valid edge per neighbour in N (null slot 0 on pentagons), origin and "
+        "destination decode back, directedEdgeToCells agrees, cellsToDirectedEdge(origin, destination) reproduces the "
+        "edge, non-neighbour / identical / cross-resolution pairs give E_NOT_NEIGHBORS with the output untouched, and "
+        "isValidDirectedEdge on candidate words (every reserved value, wrong modes, high bit, mutations) equals the spec.",
+        "Trusted: TLC, H3Grid transcription, frozen tables, driver. The geometric clauses (directedEdgeToBoundary = shared "
+        "stretch, edgeLength*) are numeric observations checked by the C08 machinery when built; until then they are "
+        "not covered by this check.",
+        "DESIGN.md 3.8, 5/C10"),
+    "C11": (
+        "TLC trace validation of vertex API events against the triangle structure of the neighbour graph",
+        "Corners of a cell are the triangles {c, n1, n2} of the reference graph (H3Grid.tla). For every cell of the model "
+        "graph r<=1 (thorough r<=2) and strata cells at r=3..15, TLC validates the cellToVertexes outputs of the cell "
+        "and of all its neighbours: 6 (5 + null slot) distinct mode-4 indexes over valid owners with in-range numbers; "
+        "each triangle has exactly one index common to its three cells and it is owned by the lowest-index cell; these "
+        "are all the cell's corners; neighbours share exactly two indexes, non-adjacent neighbours fewer; cellToVertex(i) "
+        "= slot i and E_DOMAIN (output untouched) for numbers -2..8 outside the range; isValidVertex on candidate words "
+        "(every reserved value over the cell, wrong mode, high bit, mutations, random) is true exactly for the canonical "
+        "indexes listed by cellToVertexes of the owner.",
+        "Trusted: TLC, H3Grid transcription, frozen tables, driver. The global count 2N-4 follows from the local triangle "
+        "structure on complete resolutions; vertexToLatLng coincidence is a numeric observation (C08 machinery).",
+        "DESIGN.md 3.8, 5/C11"),
 }
 
 PENDING_REASON = "check not built yet in this round (work in progress; see DESIGN.md section 10 for the order of work)"
